@@ -85,6 +85,37 @@ class Check:
             self.samples.append(rec)
         return ok
 
+    def absorb(self, db, module_name, rule_ids, new_rid, text, pred=None, min_instances=1):
+        """shared rules: run another property's rule module on the same program database and
+        re-report the obligations of `rule_ids` (optionally filtered by pred(record)) under
+        `new_rid` of this property.  Used where a clause decided under another property is also a
+        necessary condition of this one."""
+        import importlib
+        mod = importlib.import_module("fsverif.rules." + module_name)
+        sub = Check(module_name, self.tier, self.seed)
+        sub.known = []
+        sub.info = self.info
+        broken = None
+        try:
+            mod.run(db, sub)
+        except AnalysisBroken as ex:
+            broken = ex
+        self.rule(new_rid, text, min_instances=min_instances)
+        n = 0
+        for o in sub.obligations:
+            if o["rule"] not in rule_ids:
+                continue
+            if pred is not None and not pred(o):
+                continue
+            n += 1
+            self.ob(new_rid, "(%s) %s" % (o["rule"], o["instance"]), o["ok"], where=o.get("where", ""),
+                    function=o.get("function", ""), construct=o.get("construct", ""),
+                    detail=o.get("detail", ""), sample=(not o["ok"]) or n <= 3)
+        self.scenarios += sub.scenarios
+        if broken is not None and not any((not o["ok"]) for o in sub.obligations if o["rule"] in rule_ids):
+            raise broken
+        return n
+
     def count_scenarios(self, n, exhaustive=True):
         self.scenarios += n
         if self.exhaustive is None:
